@@ -1,6 +1,7 @@
 pub mod c01;
 pub mod c02;
 pub mod c04;
+pub mod c05;
 pub mod c08;
 pub mod c13;
 pub mod c20;
@@ -12,6 +13,7 @@ pub fn lookup(id: &str) -> Option<Arc<dyn Prop>> {
     Some(match id {
         "C01" => Arc::new(c01::C01),
         "C02" => Arc::new(c02::C02),
+        "C05" => Arc::new(c05::C05),
         "C04" => Arc::new(c04::C04),
         "C08" => Arc::new(c08::C08),
         "C13" => Arc::new(c13::C13),
